@@ -20,6 +20,7 @@ class Tier:
         self.points = 1 if (reduced or quick) else 2
         self.k = 0
         self._n = 0
+        self.pattern = "c"      # complex tier: which operands (in order of construction) are complex
         self.rank = 2 if reduced else (3 if quick else 4)
         self.dims = (1, 2) if reduced else (1, 2, 3)
 
@@ -54,7 +55,8 @@ class Tier:
     def arr(self, shape, lo=0.3, hi=1.7, kind="arr", cplx=None):
         """A generic operand value; each call within one leaf uses a different phase."""
         self._n += 1
-        cplx = self.cplx if cplx is None else cplx
+        if cplx is None:
+            cplx = self.cplx and self.pattern[(self._n - 1) % len(self.pattern)] == "c"
         v = O.fill(tuple(shape), self.k + 5 * self._n, lo, hi, self.seed, cplx=cplx)
         if kind == "arr" or kind == "0d":
             return onp.array(v)
